@@ -7,6 +7,7 @@ from __future__ import annotations
 
 import ast
 import contextlib
+import hashlib
 import io
 import itertools
 import json
@@ -22,6 +23,7 @@ from pathlib import Path
 from harness import core
 from harness.core import enc, strs, bool_
 from harness.props import _c12_regex as RX
+from harness.props import _c12_fns as FN
 
 PROP = "C12"
 if hasattr(sys, "set_int_max_str_digits"):
@@ -39,11 +41,23 @@ REQUIRED_THEOREMS = [
     "source_regex_has_modelled_shape", "class_on_ascii_is_label_chars", "template_wellformed", "matchAt_is_maximal_munch",
     "tokenisation_exists_unique", "rewrite_spec", "rewrite_append", "rewrite_no_prefix_capture", "rewrite_valid_label",
     "rewrite_without_sigil", "labels_of_rewrite", "rewriteL_eq_substL", "subst_spec", "subst_no_prefix_capture",
+    # the functions regenerated from the source (Generated/C12Fns.lean) equal the model
+    "generated_update_eq_model", "generated_init_eq_model", "generated_set_transformed_expression_eq_model",
+    "generated_copy_eq_model", "generated_copy_consistent", "empty_expression_text_counterexample",
+    "generated_default_value_is_nan",
+    # bounds / flags / short labels / exported values
+    "expression_value_ignores_bounds", "short_label_irrelevant", "exported_values_settled",
 ]
 TRUSTED = [
-    "hand-written model lean/GlotaranModel/C12.lean of Parameters.update_parameter_expression (fixed: repeated "
-    "passes), __init__/from_*, copy, set_from_label_and_value_arrays, get_label_value_and_bounds_arrays, "
-    "Parameter.set_value_from_optimization/_log_value — tied to the code by differential execution only",
+    "hand-written model lean/GlotaranModel/C12.lean; Parameters.update_parameter_expression (fixed: repeated passes), "
+    "Parameters.__init__, Parameters.copy, Parameters.all, Parameter.copy, set_transformed_expression and the default of "
+    "Parameter.value are tied by regeneration: harness/props/_c12_fns.py (ast -> Lean translator, trusted, with the meaning "
+    "of the Python constructs it emits fixed in lean/GlotaranModel/C12Py.lean: reference into the dict = label, isinstance / "
+    "!= / float on asteval results, ValueError, REGEX.sub with a literal template, attrs.evolve = re-validation, dict "
+    "comprehension) rewrites them into lean/GlotaranModel/Generated/C12Fns.lean on every run and generated_*_eq_model prove "
+    "them equal to the model for all inputs; from_list/from_dict/from_dataframe (dict construction, group default options), "
+    "set_from_label_and_value_arrays, get_label_value_and_bounds_arrays, Parameter.set_value_from_optimization/_log_value, "
+    "to_dataframe / to_parameter_dict_list / ParameterHistory.append are tied by differential execution only",
     "asteval (parsing and evaluation of the transformed expression) is not modelled: the harness parses the `$label` "
     "text with its own tokenizer (maximal run of [A-Za-z0-9_.]) + Python's ast and sends the intended AST to the model "
     "(tied by correspondence only; the harness' tokens are compared with the model's `labelsOf` and the real findall)",
@@ -70,6 +84,9 @@ ASSUMPTIONS = [
     "(compared after every error); numpy-scalar division by zero (inf) is not modelled and generated cases keep away "
     "from it (counted when met)",
     "labels_of_rewrite assumes that the expression text does not contain the quote character of the replacement",
+    "generated_copy_eq_model assumes parameters as their constructor leaves them (transformed text in sync) and no empty "
+    "expression text: expression='' is not None but falsy — the validator leaves vary/transformed text alone, asteval is "
+    "called with None and construction raises ValueError (empty_expression_text_counterexample, replayed on the real code)",
 ]
 RULE = (
     "a case = parameters in declaration order (label, initial value or NaN, `$label` expression text or none, vary, "
@@ -91,7 +108,13 @@ RULE = (
     "a cycle (self-loops included) on <= 3 declaration positions, expressions from the same grammar, update / set / copy "
     "/ arrays; values compared with the model, wall time bounded. Failure stream: 2-5 expression parameters in random "
     "declaration order, one of them divides by an expression parameter that the operations drive to zero (Python float: "
-    "really raises), the state left behind is compared after every error, then further sets/updates (D26)."
+    "really raises), the state left behind is compared after every error, then further sets/updates (D26). Bounds: 35% of "
+    "the expression parameters of the DAG streams declare minimum/maximum from a pool most grammar values lie outside of "
+    "(the value must be the expression value all the same). Group default options: 60% of the from_dict / yml dict cases put "
+    "an options dict ({vary}, {min,max}, {max}, {vary,max}, {min}, {non-negative} in the numpy-function mode) into 60% of "
+    "their groups, in front of or behind the parameters; the case holds the effective flags (own option, else group default), "
+    "each parameter spells out only what differs from its group default; to_dataframe / to_parameter_dict_list (stored values "
+    "and effective flags: bounds, non_negative, expression) and a ParameterHistory row are compared as further operations."
 )
 
 DYADICS = [-4.0, -3.0, -2.5, -2.0, -1.5, -1.0, -0.5, 0.5, 1.0, 1.5, 2.0, 2.5, 3.0, 4.0, 0.25, 0.75, 8.0]
@@ -104,6 +127,7 @@ LABEL_POOLS = [
     ["irf.center", "irf.width", "irf.center.1", "scale.1", "scale.10", "s"],
     ["rates.k.1", "rates.k.2", "rates.k.3", "irf.c.1", "irf.c.2", "amp.x.1"],   # from_dict-compatible
 ]
+BOUND_POOL = [(-0.25, 0.25), (None, 0.5), (0.0, None), (1.0, 1.5), (-8.0, -4.0), (0.5, 0.5)]
 NUMPY_FUNCS1 = ["exp", "log", "sqrt", "sin", "cos"]
 EXACT_FUNCS1 = ["abs"]
 EXACT_FUNCS2 = ["min", "max"]
@@ -116,11 +140,36 @@ class Unsupported(Exception):
 GEN: dict = {}
 
 
+FNS_FILE = core.LEAN / "GlotaranModel" / "Generated" / "C12Fns.lean"
+
+
 def generate(ck):
-    """regenerate lean/GlotaranModel/Generated/C12.lean (constants of the `$label` rewriting) from VERIF_REPO"""
+    """regenerate lean/GlotaranModel/Generated/C12.lean (constants of the `$label` rewriting) and
+    lean/GlotaranModel/Generated/C12Fns.lean (function-level transcription of update_parameter_expression, __init__, copy,
+    all, Parameter.copy, set_transformed_expression) from VERIF_REPO.  Source outside the translator's subset does not stop
+    the check: the function is emitted as `Py.Untranslatable`, the `generated_*_eq_model` theorems about it stop compiling
+    and the verdict logic takes over (failing-input search, else `no-failing-input-found`)."""
     tables, t = RX.generate(ck)
     GEN.clear()
     GEN.update(t)
+    results, texts = FN.translate_all(core.REPO)
+    text = FN.render(results)
+    FNS_FILE.parent.mkdir(parents=True, exist_ok=True)
+    if not FNS_FILE.exists() or FNS_FILE.read_text() != text:
+        FNS_FILE.write_text(text)
+    broken = {r.qual: r.reason for r in results if isinstance(r, FN.Broken)}
+    if broken:
+        ck.extra["untranslatable"] = broken
+        for k, v in broken.items():
+            print(f"[{PROP}] translator: {k} is outside the translated subset ({v}); its generated_*_eq_model theorem will not compile")
+    tables.append({
+        "table": "function-level transcription (lean/GlotaranModel/Generated/C12Fns.lean)",
+        "source": FN.SOURCES,
+        "source_sha1": FN.source_sha1(texts),
+        "sha1": hashlib.sha1(text.encode()).hexdigest(),
+        "functions": [r.qual for r in results if not isinstance(r, FN.Broken)],
+        "untranslatable": broken,
+    })
     return tables
 
 
@@ -309,19 +358,63 @@ def exact_eval(e, env):
 # ------------------------------------------------------------------------------------------
 # the real code
 # ------------------------------------------------------------------------------------------
-def _opts(p):
+def _opts(p, D=None):
+    """the options a parameter has to spell out itself, given the default options `D` of its group (the case holds the
+    *effective* flags of every parameter: own option, else group default, else the default of the class)"""
+    D = D or {}
     o = {}
     if p.get("expr") is not None:
         o["expr"] = p["expr"]
-    if not p.get("vary", True):
-        o["vary"] = False
-    if p.get("nonneg"):
-        o["non-negative"] = True
+    if bool(p.get("vary", True)) != bool(D.get("vary", True)):
+        o["vary"] = bool(p.get("vary", True))
+    if bool(p.get("nonneg", False)) != bool(D.get("non-negative", False)):
+        o["non-negative"] = bool(p.get("nonneg", False))
+    for k in ("min", "max"):
+        if p.get(k) != D.get(k):
+            if p.get(k) is None:
+                raise core.HarnessError(f"case generator: group default {k} cannot be undone by {p['label']}")
+            o[k] = p[k]
     return o
 
 
-def nested_dict(params):
-    """from_dict input + the declaration order the nested dict produces; None when the labels do not fit"""
+GROUP_DEFAULT_POOL = [{"vary": False}, {"vary": True}, {"min": -8.0, "max": 8.0}, {"max": 0.5}, {"vary": False, "max": 1.0},
+                      {"min": 0.25}]
+DEFAULT_KEY = {"vary": "vary", "non-negative": "nonneg", "min": "min", "max": "max"}
+
+
+def group_of(label):
+    return label.rsplit(".", 1)[0] if "." in label else None
+
+
+def apply_group_defaults(rng, params, mode):
+    """choose default options for some groups (labels up to the last dot) and make them the effective flags of every
+    parameter of the group that does not set the option itself -> {group: options}"""
+    groups = []
+    for p in params:
+        g = group_of(p["label"])
+        if g is not None and g not in groups:
+            groups.append(g)
+    out = {}
+    for g in groups:
+        if rng.random() < 0.6:
+            pool = GROUP_DEFAULT_POOL + ([{"non-negative": True}] if mode == "F" else [])
+            D = dict(rng.choice(pool))
+            out[g] = D
+            for p in params:
+                if group_of(p["label"]) != g:
+                    continue
+                for k, v in D.items():
+                    if DEFAULT_KEY[k] not in p:
+                        p[DEFAULT_KEY[k]] = v
+                if p.get("nonneg") and p.get("expr") is None and p.get("value") is not None:
+                    p["value"] = abs(p["value"])
+    return out
+
+
+def nested_dict(params, defaults=None, first=False):
+    """from_dict input + the declaration order the nested dict produces; None when the labels do not fit.
+    `defaults` = {group: default options}: the options dict is put into the group's list (in front when `first`)"""
+    defaults = defaults or {}
     root: dict = {}
     for p in params:
         parts = p["label"].split(".")
@@ -338,8 +431,9 @@ def nested_dict(params):
         item = [parts[-1]]
         if p.get("value") is not None:
             item.append(p["value"])
-        if _opts(p):
-            item.append(_opts(p))
+        o = _opts(p, defaults.get(group_of(p["label"])))
+        if o:
+            item.append(o)
         leaf.append(item)
     # a node must not be both a group with sub-groups (dict) and hold parameters (list): checked above
     order = []
@@ -351,6 +445,12 @@ def nested_dict(params):
             else:
                 for item in v:
                     order.append(".".join(prefix + [k, item[0]]))
+                D = defaults.get(".".join(prefix + [k]))
+                if D:
+                    if first:
+                        v.insert(0, dict(D))
+                    else:
+                        v.append(dict(D))
 
     walk([], root)
     if len(set(order)) != len(params):
@@ -409,7 +509,7 @@ class Real:
         elif ctor == "yml_str":
             self.obj = load_parameters(json.dumps(items), format_name="yml_str")
         elif ctor in ("from_dict", "yml_dict"):
-            nd = nested_dict(ps)
+            nd = nested_dict(ps, self.case.get("group_defaults"), bool(self.case.get("defaults_first")))
             if nd is None:
                 raise Unsupported("labels do not fit a nested dict")
             root, self.order = nd
@@ -419,6 +519,7 @@ class Real:
                 self.obj = load_parameters(json.dumps(root), format_name="yml_str")
         elif ctor in ("dict_list", "dataframe"):
             dl = []
+            bounded = ctor == "dataframe" and any(p.get("min") is not None or p.get("max") is not None for p in ps)
             for p in ps:
                 d = {"label": p["label"]}
                 if p.get("value") is not None:
@@ -431,6 +532,10 @@ class Real:
                     d["expression"] = None
                 d["vary"] = bool(p.get("vary", True))
                 d["non_negative"] = bool(p.get("nonneg", False))
+                if bounded or p.get("min") is not None:
+                    d["minimum"] = float("-inf") if p.get("min") is None else p["min"]
+                if bounded or p.get("max") is not None:
+                    d["maximum"] = float("inf") if p.get("max") is None else p["max"]
                 dl.append(d)
             if ctor == "dict_list":
                 self.obj = Parameters.from_parameter_dict_list(dl)
@@ -440,6 +545,23 @@ class Real:
                 self.obj = Parameters.from_dataframe(pd.DataFrame(dl))
         else:
             raise AssertionError(ctor)
+
+    def flag_mismatch(self, rows):
+        """exported flags vs the effective flags of the case -> text of the first difference or None"""
+        want = {p["label"]: p for p in self.case["params"]}
+        for r in rows:
+            p = want.get(r["label"])
+            if p is None:
+                return f"unknown label {r['label']}"
+            lo = float("-inf") if p.get("min") is None else float(p["min"])
+            hi = float("inf") if p.get("max") is None else float(p["max"])
+            if float(r["minimum"]) != lo or float(r["maximum"]) != hi:
+                return f"bounds of {r['label']}: exported [{r['minimum']}, {r['maximum']}], declared [{lo}, {hi}]"
+            if bool(r["non_negative"]) != bool(p.get("nonneg", False)):
+                return f"non_negative of {r['label']}: exported {r['non_negative']}"
+            if (r["expression"] if isinstance(r["expression"], str) else None) != p.get("expr"):
+                return f"expression of {r['label']}: exported {r['expression']!r}"
+        return None
 
     def state(self, obj=None):
         obj = self.obj if obj is None else obj
@@ -479,6 +601,23 @@ class Real:
                 if kind == "setraw":
                     self.obj.get(op[1]).value = float(op[2])
                     return ("ok", self.state())
+                if kind in ("todf", "dictlist"):
+                    # exports without an update: the stored values and the effective flags (own option / group default)
+                    if kind == "todf":
+                        rows = self.obj.to_dataframe().to_dict(orient="records")
+                    else:
+                        rows = self.obj.to_parameter_dict_list()
+                    bad = self.flag_mismatch(rows)
+                    if bad:
+                        return ("err", "err flags " + enc(bad))
+                    return ("ok", [(r["label"], float(r["value"]), bool(r["vary"])) for r in rows])
+                if kind == "history":
+                    from glotaran.parameter import ParameterHistory
+
+                    h = ParameterHistory()
+                    h.append(self.obj, 3)
+                    row = h.get_parameters(0)
+                    return ("okarr", list(h.parameter_labels[1:]), [float(v) for v in row[1:]], self.state())
                 if kind == "show":
                     return ("ok", self.state())
         except OpTimeout:
@@ -515,6 +654,10 @@ def model_line(case, op, real: Real):
         return f"set {strs(op[1])} {core.lst(val_txt(v) for v in op[2])}"
     if kind in ("update", "copy", "show"):
         return kind
+    if kind in ("todf", "dictlist"):
+        return "show"          # to_dataframe / to_parameter_dict_list do not update: the stored state
+    if kind == "history":
+        return "arrays F"      # a history row is get_label_value_and_bounds_arrays() (which updates first)
     if kind == "csv":
         return "copy"
     if kind == "arrays":
@@ -759,6 +902,7 @@ def run_real(ck, case, with_oracle=True, collect=None, collect_md=None):
                  "dataframe": "construct", "yml_str": "load-yml", "yml_dict": "load-yml"}[case["ctor"]]
         if orc:
             orc.check(real, real.obj, after, [])
+        dirty = False      # a raw assignment / a failed call since the last updating call on the object itself
         for op in case.get("ops", []):
             op = tuple(op)
             before = {p.label: p.value for p in real.obj.all()}
@@ -789,9 +933,16 @@ def run_real(ck, case, with_oracle=True, collect=None, collect_md=None):
                     orc.check(real, other, "copy" if op[0] == "copy" else "csv-roundtrip", done)
                 elif op[0] == "setraw":
                     pass      # a raw assignment is not an update: nothing is promised until the next API call
+                elif op[0] in ("todf", "dictlist") and dirty:
+                    pass      # exports that do not update show the stored values: settled only after an updating call
                 else:
-                    name = {"set": "set", "update": "update", "arrays": "get-arrays", "show": "show"}[op[0]]
+                    name = {"set": "set", "update": "update", "arrays": "get-arrays", "show": "show", "todf": "show",
+                            "dictlist": "show", "history": "get-arrays"}[op[0]]
                     orc.check(real, real.obj, name, done, op, before if op[0] != "setraw" else None)
+            if op[0] == "setraw" or ans[0] == "err":
+                dirty = True
+            elif op[0] in ("set", "update", "arrays", "history"):
+                dirty = False
             # the object itself after the call (copy / csv must not touch it; errors leave a state behind)
             if op[0] in ("copy", "csv") or ans[0] == "err":
                 lines.append("show")
@@ -963,6 +1114,76 @@ def run_model(lines, owner, table):
     raise core.HarnessError("function table negotiation did not converge")
 
 
+def _mirror_eval(e, env):
+    """magnitude mirror of the model's evaluator in double arithmetic (work bound only, never a verdict)"""
+    k = e[0]
+    if k == "lit":
+        return float(e[1])
+    if k == "ref":
+        return env.get(e[1], float("nan"))
+    if k == "neg":
+        return -_mirror_eval(e[1], env)
+    if k in ("add", "sub", "mul", "div"):
+        x, y = _mirror_eval(e[1], env), _mirror_eval(e[2], env)
+        if k == "div":
+            return x / y if y != 0 else float("inf")
+        return {"add": x + y, "sub": x - y, "mul": x * y}[k]
+    if k == "call1":
+        return abs(_mirror_eval(e[2], env))
+    if k == "call2":
+        x, y = _mirror_eval(e[2], env), _mirror_eval(e[3], env)
+        return max(abs(x), abs(y)) if x == x and y == y else float("nan")
+    return float("nan")
+
+
+MIRROR_LIMIT = 2.0 ** 400
+
+
+def model_would_explode(case, ops):
+    """would the exact rationals of the model outgrow 2^±400 on this case (a diverging cyclic definition)?  The model
+    performs its passes whatever the implementation does, and a squaring cycle doubles the number of digits per pass; the
+    implementation usually overflows to inf first (such cases are skipped anyway) — but not when a change of the code
+    makes it do fewer passes.  Mirror of the model's schedule (passes in declaration order repeated while something
+    changes, at most one per expression parameter) in doubles, used only to bound the work of the driver."""
+    try:
+        params = case["params"]
+        env = {p["label"]: (float("nan") if p.get("value") is None else float(p["value"])) for p in params}
+        exprs = [(p["label"], parse_expr(p["expr"])) for p in params if p.get("expr") is not None]
+
+        def update():
+            for _ in exprs:
+                changed = False
+                for lab, e in exprs:
+                    v = _mirror_eval(e, env)
+                    if v != env[lab]:
+                        changed = True
+                    env[lab] = v
+                    if v == v and (abs(v) > MIRROR_LIMIT or (v != 0 and abs(v) < 1 / MIRROR_LIMIT)):
+                        return True
+                if not changed:
+                    break
+            return False
+
+        if update():
+            return True
+        nonneg = {p["label"] for p in params if p.get("nonneg")}
+        for op in ops:
+            if op[0] == "set" and len(op[1]) == len(op[2]):
+                for lab, v in zip(op[1], op[2]):
+                    if lab in env:
+                        env[lab] = math.exp(float(v)) if lab in nonneg else float(v)
+            elif op[0] == "setraw":
+                env[op[1]] = float(op[2])
+                continue
+            elif op[0] in ("copy", "csv", "show", "todf", "dictlist"):
+                continue
+            if update():
+                return True
+        return False
+    except (Unsupported, OverflowError, KeyError, ValueError, ZeroDivisionError):
+        return False
+
+
 def compare(ck, cases, tag, diagnostic_only=False, exact_only=False):
     all_lines, all_impl, owner, table = [], [], [], {}
     seen_texts, seen_md = [], []
@@ -984,6 +1205,13 @@ def compare(ck, cases, tag, diagnostic_only=False, exact_only=False):
         ck.count(f"ctor:{case['ctor']}")
         ck.count(f"n_params:{len(case['params'])}")
         ck.count(f"n_expr:{len(exprs)}")
+        nb = sum(1 for p in case["params"] if p.get("expr") is not None and (p.get("min") is not None or p.get("max") is not None))
+        if nb:
+            ck.count("expr-with-bounds", nb)
+        if case.get("group_defaults"):
+            ck.count("cases-with-group-defaults")
+            for D in case["group_defaults"].values():
+                ck.count("group-default:" + ",".join(sorted(D)))
         for op in done:
             ck.count(f"op:{op[0]}")
         for a in impl:
@@ -994,6 +1222,9 @@ def compare(ck, cases, tag, diagnostic_only=False, exact_only=False):
             ck.count(f"raised-in-construction:{tag}")
         if impl_has_inf(impl):
             ck.count("skipped:numpy-inf-unmodelled")
+            continue
+        if exact_only and model_would_explode(case, done):
+            ck.count(f"skipped:{tag}-model-digits-explode")
             continue
         all_lines += lines
         all_impl += impl
@@ -1302,6 +1533,43 @@ def _replay_witnesses(ck):
                     {"params": [{"label": "a", "value": 3.0, "expr": "2+1/$b"}, {"label": "b", "value": 1.0, "expr": "$c-1"},
                                 {"label": "c", "value": 2.0}], "ctor": "from_list",
                      "ops": [["set", ["c"], [1.0], "list"], ["set", ["c"], [2.0], "list"]]})
+    # empty_expression_text_counterexample: expression "" is not None but falsy
+    from glotaran.parameter import Parameter
+
+    with contextlib.redirect_stderr(io.StringIO()):
+        p = Parameter("a", value=1.0, expression="")
+        seen = (p.expression, p.transformed_expression, bool(p.vary))
+        q = p.copy()
+        seen_copy = (q.expression, q.transformed_expression, bool(q.vary))
+        try:
+            Parameters({"a": p})
+            raised = None
+        except ValueError as e:
+            raised = str(e)
+    ck.count("witness:empty-expression")
+    if seen != ("", None, True) or seen_copy != seen or raised is None or "of parameter 'a' evaluates to non numeric value 'None'" not in raised:
+        ck.disagree("witness-empty-expression", "empty_expression_text_counterexample: expected expression '' to leave "
+                    "transformed_expression None and vary True (also in the copy) and Parameters({'a': p}) to raise the "
+                    f"non-numeric ValueError; implementation: {seen}, copy {seen_copy}, raised {raised!r}",
+                    {"params": [{"label": "a", "value": 1.0, "expr": ""}], "ctor": "from_list", "ops": []})
+    # the examples next to generated_copy_eq_model / expression_value_ignores_bounds: a stale a = 100 is replaced in the copy,
+    # a = $b*2 with bounds [0, 1] ends at 8
+    with contextlib.redirect_stderr(io.StringIO()):
+        ps = Parameters.from_list([["a", {"expr": "$b*2", "min": 0, "max": 1}], ["b", {"expr": "$c+1"}], ["c", 3.0]])
+        built = vals(ps)
+        texts = [x.transformed_expression for x in ps.all()]
+        ps.get("a").value = 100.0
+        copied = vals(ps.copy())
+        kept = vals(ps)
+    ck.count("witness:copy-reevaluates")
+    if (built, copied, kept) != ([8.0, 4.0, 3.0], [8.0, 4.0, 3.0], [100.0, 4.0, 3.0]) or \
+            texts != ["parameters.get('b').value*2", "parameters.get('c').value+1", None]:
+        ck.disagree("witness-copy-reevaluates", "examples of generated_copy_eq_model / expression_value_ignores_bounds: expected "
+                    "[8,4,3] after construction (a outside its bounds [0,1]), [8,4,3] in the copy of the object with a := 100, "
+                    f"the object itself untouched; implementation: {(built, copied, kept)}, transformed texts {texts}",
+                    {"params": [{"label": "a", "expr": "$b*2", "min": 0.0, "max": 1.0}, {"label": "b", "expr": "$c+1"},
+                                {"label": "c", "value": 3.0}], "ctor": "from_list",
+                     "ops": [["setraw", "a", 100.0], ["copy"]]})
 
 
 # ------------------------------------------------------------------------------------------
@@ -1423,6 +1691,14 @@ def case_from_dag(rng, succ, mode="E", pool=None, ctor=None, n_ops=None):
                 raise core.HarnessError(f"renderer/parser self-check failed: {ast_} -> {text!r} -> {back}")
             p["expr"] = text
             p["value"] = None if rng.random() < 0.5 else rng.choice(DYADICS)
+            if rng.random() < 0.35:
+                # bounds on an expression parameter (most values of the grammar lie outside): the value is the expression
+                # value whatever the bounds say (expression_value_ignores_bounds; seeded change: clamping to the bounds)
+                lo, hi = rng.choice(BOUND_POOL)
+                if lo is not None:
+                    p["min"] = lo
+                if hi is not None:
+                    p["max"] = hi
         else:
             p["value"] = rng.choice(DYADICS)
             if rng.random() < 0.15:
@@ -1434,6 +1710,13 @@ def case_from_dag(rng, succ, mode="E", pool=None, ctor=None, n_ops=None):
     case = {"params": params, "ctor": ctor}
     if case["ctor"] in ("from_dict", "yml_dict") and nested_dict(params) is None:
         case["ctor"] = "from_list"
+    if case["ctor"] in ("from_dict", "yml_dict") and rng.random() < 0.6:
+        # default options of a group (`- {vary: false, max: 1}` inside the list): inherited by every parameter of the group
+        # that does not set the option itself, expression parameters included
+        gd = apply_group_defaults(rng, params, mode)
+        if gd:
+            case["group_defaults"] = gd
+            case["defaults_first"] = rng.random() < 0.5
     case["ops"] = make_ops(rng, params, rng.randint(2, 5) if n_ops is None else n_ops, mode)
     return case
 
@@ -1473,8 +1756,10 @@ def make_ops(rng, params, k, mode):
             ops.append(["copy"])
         elif r < 0.72:
             ops.append(["csv"])
-        elif r < 0.82:
+        elif r < 0.80:
             ops.append(["arrays", rng.random() < 0.7])
+        elif r < 0.84:
+            ops.append([rng.choice(["todf", "dictlist", "history"])])
         elif r < 0.9:
             ops.append(["update"])
         else:
